@@ -31,9 +31,11 @@ pub open spec fn max_group(max_grouping_len: Option<usize>) -> int {
 impl UnkHandler {
     pub open spec fn wf(&self) -> bool {
         &&& self.offsets.len() >= 1
-        &&& forall|c: int| 0 <= c < self.offsets.len() - 1 ==> #[trigger] self.offsets[c] <= self.offsets[c + 1]
+        // monotone offsets, stated over pairs so that instantiating it creates no new index term (the adjacent form
+        // `offsets[c] <= offsets[c + 1]` with trigger offsets[c] is a matching loop)
+        &&& forall|c: int, d: int| 0 <= c <= d < self.offsets.len() ==> #[trigger] self.offsets[c] <= #[trigger] self.offsets[d]
         &&& forall|c: int| 0 <= c < self.offsets.len() ==> #[trigger] self.offsets[c] <= self.entries.len()
-        &&& self.entries.len() <= 0xffff
+        &&& self.entries.len() <= 0x10000   // UnkWord carries the entry index as u16
     }
 
     /// number of categories that have an offsets slot
